@@ -1,6 +1,711 @@
-//! C11 — not built yet.
-use crate::rt::*;
+//! C11 — batch encoding is a ring isomorphism; the Galois action is the documented rotation.
+//!
+//! Oracle (independent of heathcliff::util): with psi = the plain-modulus NTT table's root,
+//! slot j of the 2-by-N/2 matrix is the evaluation point r_j = psi^(e_j), e_j = 3^j mod 2N
+//! for the top row and e_(N/2+j) = -3^j mod 2N for the bottom row.
+//!   * encode(e_j) must be the column N^-1 * r_j^(-k)  (k = 0..N-1)      [all N unit vectors]
+//!   * decode(X^k) must be the row r_j^k             (j = 0..N-1)      [all N monomials]
+//!   * random / extreme / short vectors: decode(encode(v)) = v zero-padded, p(r_j) = v_j by Horner
+//!   * reference sums and schoolbook negacyclic products of encoded polynomials decode to the
+//!     slot-wise sums / products
+//!   * apply_galois_plain{,_new,_inplace}(encode(v), get_elt_from_step(s)) decodes to both rows
+//!     rotated left by s for EVERY 0<|s|<N/2, element of step 0 / 2N-1 exchanges the rows
+//!   * encode_polynomial reduces every coefficient mod t, decode_polynomial returns it.
 
-pub fn run(_cfg: &Cfg, _rep: &mut Report) -> PropMeta {
-    PropMeta { id: "C11", level: "exploration", rule: "not built", assumptions: vec![], exhaustive: false, floor: 1 }
+use crate::refm;
+use crate::rt::*;
+use heathcliff::util::GaloisTool;
+use heathcliff::{
+    BatchEncoder, CoeffModulus, EncryptionParameters, Evaluator, HeContext, Modulus, PlainModulus, Plaintext, SchemeType,
+    SecurityLevel,
+};
+use serde_json::{json, Value};
+use std::sync::Arc;
+
+const P: &str = "C11";
+/// unit vectors / rotation steps handled by one case (keeps a case below ~0.5 s at N = 8192)
+const CHUNK: usize = 2048;
+
+// ------------------------------------------------------------------ configurations (N, t bit size, which prime)
+#[derive(Clone, Copy, Debug)]
+struct Conf { n: usize, bits: usize, kind: u8, first_of_n: bool } // kind 0 = smallest prime, 1 = largest (PlainModulus::batching), >= 2 random
+
+/// candidates t = k*2N + 1 with exactly `bits` bits: (2N, kmin, kmax)
+fn cand_range(n: usize, bits: usize) -> Option<(u64, u64, u64)> {
+    let m = 2 * n as u64;
+    let lo = 1u64 << (bits - 1);
+    let hi = (1u64 << bits) - 1;
+    let kmin = ((lo - 1 + m - 1) / m).max(1);
+    let kmax = (hi - 1) / m;
+    if kmin > kmax { None } else { Some((m, kmin, kmax)) }
+}
+fn prime_up(m: u64, from: u64, to: u64) -> Option<u64> {
+    let mut k = from; let mut it = 0;
+    while k <= to && it < 200_000 { let c = k * m + 1; if refm::is_prime(c) { return Some(c); } k += 1; it += 1; }
+    None
+}
+fn prime_down(m: u64, from: u64, to: u64) -> Option<u64> {
+    let mut k = from; let mut it = 0;
+    while k >= to && k >= 1 && it < 200_000 { let c = k * m + 1; if refm::is_prime(c) { return Some(c); } k -= 1; it += 1; }
+    None
+}
+fn pick_t(conf: &Conf, rng: &mut Rng) -> Option<u64> {
+    let (m, kmin, kmax) = cand_range(conf.n, conf.bits)?;
+    match conf.kind {
+        0 => prime_up(m, kmin, kmax),
+        1 => prime_down(m, kmax, kmin),
+        _ => { let ks = rng.range(kmin, kmax); prime_up(m, ks, kmax).or_else(|| prime_up(m, kmin, ks)) }
+    }
+}
+/// `count` distinct primes = 1 mod 2N, walking down from k = `from`, skipping `exclude`
+fn ntt_primes_down(n: usize, from: u64, count: usize, exclude: u64) -> Vec<u64> {
+    let m = 2 * n as u64; let mut out = vec![]; let mut k = from; let mut it = 0;
+    while out.len() < count && k >= 1 && it < 400_000 {
+        let c = k * m + 1;
+        if c != exclude && refm::is_prime(c) { out.push(c); }
+        k -= 1; it += 1;
+    }
+    out
+}
+
+fn build_confs(cfg: &Cfg) -> Vec<Conf> {
+    let max_log = cfg.pick(10, 13);
+    let randoms = cfg.pick(2u8, 4u8);
+    let mut v = vec![];
+    for logn in 1..=max_log {
+        let n = 1usize << logn; let mut first = true;
+        for bits in 4..=60usize {
+            let Some((m, kmin, kmax)) = cand_range(n, bits) else { continue };
+            if prime_up(m, kmin, kmax).is_none() { continue; }
+            for kind in 0..(2 + randoms) { v.push(Conf { n, bits, kind, first_of_n: first }); first = false; }
+        }
+    }
+    v
+}
+
+// ------------------------------------------------------------------ bundle: context + encoder + evaluator + oracle tables
+struct Bundle {
+    ctx: Arc<HeContext>, enc: BatchEncoder, ev: Evaluator,
+    n: usize, h: usize, t: u64, tbits: usize, psi: u64,
+    /// e_j: slot j evaluates at psi^(e_j)
+    exps: Vec<usize>,
+    /// pw[e] = psi^e, e in 0..2N
+    pw: Vec<u64>,
+    qs: Vec<u64>, qkind: &'static str, scheme: &'static str, standalone_tool: bool,
+}
+impl Bundle {
+    fn root(&self, slot: usize) -> u64 { self.pw[self.exps[slot]] }
+    fn info(&self) -> Value { json!({"N": self.n, "t": self.t, "t_bits": self.tbits, "psi": self.psi, "coeff_modulus": self.qs, "coeff_kind": self.qkind, "scheme": self.scheme}) }
+}
+
+/// per-case plumbing for violations
+struct X<'a> { cfg: &'a Cfg, grp: &'a str, case: u64, info: Value }
+impl<'a> X<'a> {
+    fn viol(&self, rep: &mut Report, op: &str, class: &str, kind: &str, detail: String, extra: Value) {
+        rep.violation(&format!("{}|{}|{}|{}", P, op, class, kind),
+            format!("{} ; params {}", detail, self.info),
+            replay_json(self.cfg, self.grp, self.case, json!({"params": self.info, "input": extra})));
+    }
+}
+macro_rules! call {
+    ($x:expr, $rep:expr, $op:expr, $class:expr, $inp:expr, $body:expr) => {{
+        match lib(|| $body) {
+            Ok(v) => Some(v),
+            Err(p) => { $x.viol($rep, $op, $class, "panic", format!("{} panicked: {} ; input {}", $op, p.0, $inp), json!({"input": $inp})); None }
+        }
+    }};
+}
+
+fn tr(v: &[u64]) -> String {
+    if v.len() <= 16 { format!("{:?}", v) } else { format!("[{} .. {}] (len {})", v[..8].iter().map(|x| x.to_string()).collect::<Vec<_>>().join(", "), v[v.len() - 2..].iter().map(|x| x.to_string()).collect::<Vec<_>>().join(", "), v.len()) }
+}
+fn first_diff(a: &[u64], b: &[u64]) -> Option<usize> {
+    if a.len() != b.len() { return Some(a.len().min(b.len())); }
+    (0..a.len()).find(|&i| a[i] != b[i])
+}
+fn mk_plain(data: &[u64]) -> Plaintext { let mut p = Plaintext::new(); p.resize(data.len()); p.data_mut().copy_from_slice(data); p }
+fn padded(v: &[u64], n: usize) -> Vec<u64> { let mut r = v.to_vec(); r.resize(n, 0); r }
+
+fn coeff_modulus_for(n: usize, t: u64, tbits: usize, crng: &mut Rng) -> (Vec<u64>, &'static str) {
+    let m = 2 * n as u64;
+    let k60 = ((1u64 << 60) - 2) / m;
+    let kind_b = |cnt: usize| ntt_primes_down(n, k60, cnt, t);
+    let kt = (t - 1) / m;
+    match crng.below(10) {
+        0..=2 => { // A: one prime above t
+            if tbits < 60 {
+                let qb = crng.range(tbits as u64 + 1, 60) as usize;
+                if let Some((_, kmin, kmax)) = cand_range(n, qb) {
+                    let start = if crng.bool() { kmax } else { crng.range(kmin, kmax) };
+                    if let Some(q) = prime_down(m, start, kmin) { return (vec![q], "A:one_prime>t"); }
+                }
+            } else if let Some(q) = prime_up(m, kt + 1, k60) { return (vec![q], "A:one_prime>t"); }
+            (kind_b(2), "B:60bit_primes")
+        }
+        3..=5 => (kind_b(2 + crng.usize_below(2)), "B:60bit_primes"),
+        6..=7 => { // C: primes below t whose product exceeds t
+            if kt >= 2 {
+                let start = crng.range(1, kt - 1);
+                let ps = ntt_primes_down(n, start, 8, t);
+                let mut prod: u128 = 1; let mut out = vec![];
+                for p in ps { out.push(p); prod = prod.saturating_mul(p as u128); if prod > t as u128 { break; } }
+                if prod > t as u128 && !out.is_empty() { return (out, "C:primes<t"); }
+            }
+            (kind_b(2), "B:60bit_primes")
+        }
+        _ => { // D: the library's own generator
+            let cnt = 1 + crng.usize_below(3);
+            let lo = (tbits + 1).min(60);
+            let sizes: Vec<usize> = (0..cnt.max(if tbits >= 60 { 2 } else { 1 })).map(|i| if i == 0 { crng.range(lo as u64, 60) as usize } else { crng.range(lo.min(40) as u64, 60) as usize }).collect();
+            if let Ok(ms) = lib(|| CoeffModulus::create(n, sizes.clone())) {
+                let qs: Vec<u64> = ms.iter().map(|x| x.value()).collect();
+                let mut prod: u128 = 1; for &q in &qs { prod = prod.saturating_mul(q as u128); }
+                let mut distinct = qs.clone(); distinct.sort(); distinct.dedup();
+                if !qs.contains(&t) && prod > t as u128 && distinct.len() == qs.len() && qs.iter().all(|&q| refm::is_prime(q) && q % m == 1) {
+                    return (qs, "D:CoeffModulus::create");
+                }
+            }
+            (kind_b(3), "B:60bit_primes")
+        }
+    }
+}
+
+fn build_context(n: usize, t: u64, qs: &[u64], bgv: bool) -> Result<Arc<HeContext>, Panicked> {
+    lib(|| {
+        let moduli: Vec<Modulus> = qs.iter().map(|&q| Modulus::new(q)).collect();
+        let parms = EncryptionParameters::new(if bgv { SchemeType::BGV } else { SchemeType::BFV })
+            .set_poly_modulus_degree(n).set_coeff_modulus(&moduli).set_plain_modulus(&Modulus::new(t));
+        HeContext::new(parms, true, SecurityLevel::None)
+    })
+}
+
+fn make_bundle(cfg: &Cfg, grp: &str, case: u64, rep: &mut Report, conf: &Conf, conf_idx: usize, tally: bool) -> Option<Bundle> {
+    let mut crng = Rng::derive(cfg.seed, 0xC11C0F, conf_idx as u64);
+    let n = conf.n;
+    let mut t = pick_t(conf, &mut crng)?;
+    let mut t_source = match conf.kind { 0 => "smallest", 1 => "largest", _ => "random" };
+    if conf.kind == 1 {
+        // the library's own generator for batching primes; used when it is batching-compatible
+        if let Ok(m) = lib(|| PlainModulus::batching(n, conf.bits)) {
+            let v = m.value();
+            if refm::is_prime(v) && v % (2 * n as u64) == 1 && refm::bit_len(v) == conf.bits {
+                if v != t { rep.note(&format!("PlainModulus::batching({}, {}) = {} is not the largest such prime {}", n, conf.bits, v, t)); }
+                t = v; t_source = "PlainModulus::batching";
+            } else { rep.note(&format!("PlainModulus::batching({}, {}) = {} is not a {}-bit prime = 1 mod 2N (own prime used)", n, conf.bits, v, conf.bits)); }
+        } else { rep.note(&format!("PlainModulus::batching({}, {}) panicked although a prime exists (own prime used)", n, conf.bits)); }
+    }
+    let tbits = refm::bit_len(t);
+    let bgv = crng.below(4) == 0;
+    let scheme = if bgv { "BGV" } else { "BFV" };
+    let (mut qs, mut qkind) = coeff_modulus_for(n, t, tbits, &mut crng);
+    let standalone_tool = crng.bool();
+    let x = X { cfg, grp, case, info: json!({"N": n, "t": t, "coeff_modulus": qs, "scheme": scheme}) };
+    let mut ctx = match build_context(n, t, &qs, bgv) {
+        Ok(c) => c,
+        Err(p) => { x.viol(rep, "HeContext::new", &format!("coeff={}", qkind), "panic", format!("HeContext::new panicked: {}", p.0), json!({})); return None; }
+    };
+    if !ctx.parameters_set() && !qkind.starts_with("B") {
+        // an exotic coefficient modulus the library does not accept is not C11's business: use the plain one
+        if tally { rep.count("coeff_modulus_fallback", qkind); }
+        let k60 = ((1u64 << 60) - 2) / (2 * n as u64);
+        qs = ntt_primes_down(n, k60, 2, t); qkind = "B:60bit_primes";
+        ctx = match build_context(n, t, &qs, bgv) {
+            Ok(c) => c,
+            Err(p) => { x.viol(rep, "HeContext::new", "coeff=B:60bit_primes", "panic", format!("HeContext::new panicked: {}", p.0), json!({"coeff_modulus": qs})); return None; }
+        };
+    }
+    let x = X { cfg, grp, case, info: json!({"N": n, "t": t, "coeff_modulus": qs, "scheme": scheme}) };
+    if !ctx.parameters_set() {
+        let err = ctx.first_context_data().map(|c| format!("{:?}", c.qualifiers().parameter_error)).unwrap_or_default();
+        x.viol(rep, "HeContext::new", "coeff=B:60bit_primes", "rejected", format!("batching-compatible (N, t) with two 60-bit NTT primes rejected: {}", err), json!({}));
+        return None;
+    }
+    let fcd = ctx.first_context_data().unwrap();
+    if !fcd.qualifiers().using_batching {
+        x.viol(rep, "HeContext::new", "t=1mod2N_prime", "no_batching", "qualifiers().using_batching is false for a prime t = 1 mod 2N".into(), json!({}));
+        return None;
+    }
+    let psi = fcd.plain_ntt_tables().root();
+    if !(psi < t && refm::is_primitive_2n_root(psi, n, t)) {
+        x.viol(rep, "plain_ntt_tables.root", "any", "not_primitive", format!("root {} is not a primitive 2N-th root of unity mod t", psi), json!({}));
+        return None;
+    }
+    let enc = call!(x, rep, "BatchEncoder::new", "batching_context", "-", BatchEncoder::new(ctx.clone()))?;
+    let ev = call!(x, rep, "Evaluator::new", "batching_context", "-", Evaluator::new(ctx.clone()))?;
+    if enc.slot_count() != n {
+        x.viol(rep, "BatchEncoder::slot_count", "any", "value", format!("slot_count {} != N", enc.slot_count()), json!({}));
+        return None;
+    }
+    // oracle tables
+    let m2 = 2 * n; let h = n / 2;
+    let mut pw = vec![1u64; m2];
+    for e in 1..m2 { pw[e] = refm::mulmod(pw[e - 1], psi, t); }
+    let mut exps = vec![0usize; n];
+    let mut g = 1usize;
+    for j in 0..h { exps[j] = g; exps[h + j] = m2 - g; g = (g * 3) % m2; }
+    if tally {
+        rep.count("configs_by_degree", &format!("N={:05}", n));
+        rep.count("configs_by_t_bits", &format!("{:02}", tbits));
+        rep.count("configs_degree_x_t_bits", &format!("N={:05},t_bits={:02}", n, tbits));
+        rep.count("t_source", t_source);
+        rep.count("coeff_modulus_kind", qkind);
+        rep.count("scheme", scheme);
+        rep.min("t_bits", tbits as f64); rep.max("t_bits", tbits as f64);
+        rep.min("N", n as f64); rep.max("N", n as f64);
+        rep.min("t", t as f64); rep.max("t", t as f64);
+    }
+    Some(Bundle { ctx, enc, ev, n, h, t, tbits, psi, exps, pw, qs, qkind, scheme, standalone_tool })
+}
+
+// ------------------------------------------------------------------ reference helpers local to C11
+/// a*b mod (X^n+1, t), schoolbook with u128 accumulators (t < 2^60: 128 products fit before reduction)
+fn negacyclic_mul_acc(a: &[u64], b: &[u64], t: u64) -> Vec<u64> {
+    let n = a.len(); let tt = t as u128;
+    let mut r = vec![0u64; n];
+    for k in 0..n {
+        let (mut pos, mut neg) = (0u128, 0u128);
+        let mut cnt = 0;
+        for i in 0..=k { pos += a[i] as u128 * b[k - i] as u128; cnt += 1; if cnt == 128 { pos %= tt; cnt = 0; } }
+        cnt = 0;
+        for i in k + 1..n { neg += a[i] as u128 * b[n + k - i] as u128; cnt += 1; if cnt == 128 { neg %= tt; cnt = 0; } }
+        r[k] = ((pos % tt + tt - neg % tt) % tt) as u64;
+    }
+    r
+}
+fn rot_expected(v: &[u64], s: isize) -> Vec<u64> {
+    let n = v.len(); let h = n / 2;
+    let sh = s.rem_euclid(h as isize) as usize;
+    let mut r = vec![0u64; n];
+    for row in 0..2 { for c in 0..h { r[row * h + c] = v[row * h + (c + sh) % h]; } }
+    r
+}
+fn swap_expected(v: &[u64]) -> Vec<u64> { let h = v.len() / 2; let mut r = v[h..].to_vec(); r.extend_from_slice(&v[..h]); r }
+fn len_class(len: usize, n: usize) -> &'static str { if len == 0 { "len=0" } else if len < n { "0<len<N" } else { "len=N" } }
+fn slots_to_check(n: usize, rng: &mut Rng) -> Vec<usize> {
+    if n <= 256 { (0..n).collect() } else { let mut s: Vec<usize> = (0..32).map(|_| rng.usize_below(n)).collect(); s.push(0); s.push(n / 2 - 1); s.push(n / 2); s.push(n - 1); s }
+}
+
+fn dirty_plain(b: &Bundle, rng: &mut Rng) -> Plaintext {
+    // a destination that already holds something else (stale content must not leak)
+    let len = match rng.below(3) { 0 => 0, 1 => rng.range(1, b.n as u64) as usize, _ => b.n };
+    let d: Vec<u64> = (0..len).map(|_| rng.below(b.t)).collect();
+    mk_plain(&d)
+}
+fn dirty_vec(b: &Bundle, rng: &mut Rng) -> Vec<u64> {
+    let len = match rng.below(3) { 0 => 0, 1 => rng.usize_below(b.n) + 1, _ => b.n + 5 };
+    (0..len).map(|_| rng.u64()).collect()
+}
+
+/// encode through both forms; they must agree. Returns the plaintext.
+fn encode_both(x: &X, rep: &mut Report, b: &Bundle, rng: &mut Rng, v: &[u64], class: &str) -> Option<Plaintext> {
+    let inp = tr(v);
+    let p_new = call!(x, rep, "encode_new", class, inp, b.enc.encode_new(v))?;
+    let dirty = dirty_plain(b, rng);
+    let p_dst = call!(x, rep, "encode", class, inp, { let mut d = dirty.clone(); b.enc.encode(v, &mut d); d })?;
+    rep.count("forms", "encode"); rep.count("forms", "encode_new");
+    if p_new.data() != p_dst.data() || p_new.coeff_count() != p_dst.coeff_count() {
+        x.viol(rep, "encode", class, "dest_vs_new", format!("encode into a used destination {} differs from encode_new {} for values {}", tr(p_dst.data()), tr(p_new.data()), inp), json!({"values": v}));
+    }
+    if p_new.coeff_count() != b.n || p_new.data().len() != b.n {
+        x.viol(rep, "encode_new", class, "shape", format!("coeff_count {} / data len {} != N for values {}", p_new.coeff_count(), p_new.data().len(), inp), json!({"values": v}));
+        return None;
+    }
+    if let Some(i) = p_new.data().iter().position(|&c| c >= b.t) {
+        x.viol(rep, "encode_new", class, "unreduced", format!("coefficient {} = {} >= t for values {}", i, p_new.data()[i], inp), json!({"values": v}));
+        return None;
+    }
+    Some(p_new)
+}
+/// decode through both forms; they must agree. Returns the slots.
+fn decode_both(x: &X, rep: &mut Report, b: &Bundle, rng: &mut Rng, p: &Plaintext, class: &str) -> Option<Vec<u64>> {
+    let inp = tr(p.data());
+    let d_new = call!(x, rep, "decode_new", class, inp, b.enc.decode_new(p))?;
+    let dirty = dirty_vec(b, rng);
+    let d_dst = call!(x, rep, "decode", class, inp, { let mut d = dirty.clone(); b.enc.decode(p, &mut d); d })?;
+    rep.count("forms", "decode"); rep.count("forms", "decode_new");
+    if d_new != d_dst {
+        x.viol(rep, "decode", class, "dest_vs_new", format!("decode into a used vector {} differs from decode_new {} for plaintext {}", tr(&d_dst), tr(&d_new), inp), json!({"plain": p.data()}));
+    }
+    if d_new.len() != b.n {
+        x.viol(rep, "decode_new", class, "shape", format!("{} slots returned, N expected, plaintext {}", d_new.len(), inp), json!({"plain": p.data()}));
+        return None;
+    }
+    Some(d_new)
+}
+
+// ------------------------------------------------------------------ group "unit": all N unit vectors / all N monomials
+fn unit_case(cfg: &Cfg, grp: &str, case: u64, rep: &mut Report, rng: &mut Rng, conf: &Conf, conf_idx: usize, chunk: usize) {
+    let Some(b) = make_bundle(cfg, grp, case, rep, conf, conf_idx, chunk == 0) else { return };
+    let x = X { cfg, grp, case, info: b.info() };
+    let (n, t, m2) = (b.n, b.t, 2 * b.n);
+    let ninv = refm::invmod(n as u64 % t, t).expect("N invertible mod prime t > N");
+    // spw[e] = N^-1 * psi^(-e)
+    let spw: Vec<u64> = (0..m2).map(|e| refm::mulmod(ninv, b.pw[(m2 - e) % m2], t)).collect();
+    let lo = chunk * CHUNK; let hi = (lo + CHUNK).min(n);
+    let (mut enc_bad, mut dec_bad) = (0u64, 0u64);
+    let dirty = dirty_plain(&b, rng);
+    for j in lo..hi {
+        // ---- encode(e_j) == column j of the inverse transform
+        let short = j % 2 == 1;
+        let mut v = vec![0u64; if short { j + 1 } else { n }]; v[j] = 1;
+        let cls = "unit_vector";
+        let p = if j % 4 < 2 { rep.count("forms", "encode_new"); call!(x, rep, "encode_new", cls, format!("e_{} (len {})", j, v.len()), b.enc.encode_new(&v)) }
+            else { rep.count("forms", "encode"); call!(x, rep, "encode", cls, format!("e_{} (len {})", j, v.len()), { let mut d = dirty.clone(); b.enc.encode(&v, &mut d); d }) };
+        if let Some(p) = p {
+            let e = b.exps[j];
+            let mut bad = None;
+            if p.coeff_count() != n || p.data().len() != n { bad = Some(usize::MAX); } else {
+                let d = p.data(); let mut idx = 0usize;
+                for k in 0..n { if d[k] != spw[idx] { bad = Some(k); break; } idx += e; if idx >= m2 { idx -= m2; } }
+            }
+            if let Some(k) = bad {
+                enc_bad += 1;
+                if enc_bad == 1 {
+                    let want: Vec<u64> = (0..n).map(|k| spw[(e * k) % m2]).collect();
+                    x.viol(rep, "encode", cls, "value", format!("encode(e_{}) (input length {}) = {} but N^-1 * r_j^-k with r_j = psi^{} is {} (first difference at coefficient {})", j, v.len(), tr(p.data()), e, tr(&want), k as isize),
+                        json!({"unit_index": j, "input_len": v.len()}));
+                }
+            }
+            if n <= 8 && chunk == 0 && conf.first_of_n && j == 1 && n >= 4 {
+                rep.sample(json!({"group": "unit", "params": b.info(), "slot_exponents_e_j": b.exps, "input": v, "encode_output": p.data(), "expected_column_Ninv_psi^(-e_j*k)": (0..n).map(|k| spw[(e * k) % m2]).collect::<Vec<_>>()}));
+            }
+        }
+        // ---- decode(X^k) == row of evaluations r_s^k
+        let k = j;
+        let cls = "monomial";
+        let mut data = vec![0u64; if k % 2 == 0 { k + 1 } else { n }]; data[k] = 1;
+        let pl = mk_plain(&data);
+        let d = if k % 4 < 2 { rep.count("forms", "decode"); let dv = vec![7u64; (k % 5) * 3]; call!(x, rep, "decode", cls, format!("X^{} (coeff_count {})", k, data.len()), { let mut d = dv.clone(); b.enc.decode(&pl, &mut d); d }) }
+            else { rep.count("forms", "decode_new"); call!(x, rep, "decode_new", cls, format!("X^{} (coeff_count {})", k, data.len()), b.enc.decode_new(&pl)) };
+        if let Some(d) = d {
+            let mut bad = None;
+            if d.len() != n { bad = Some(usize::MAX); } else {
+                for s in 0..n { if d[s] != b.pw[(b.exps[s] * k) & (m2 - 1)] { bad = Some(s); break; } }
+            }
+            if let Some(s) = bad {
+                dec_bad += 1;
+                if dec_bad == 1 {
+                    let want: Vec<u64> = (0..n).map(|s| b.pw[(b.exps[s] * k) & (m2 - 1)]).collect();
+                    x.viol(rep, "decode", cls, "value", format!("decode(X^{}) (coeff_count {}) = {} but the evaluations psi^(e_s*{}) are {} (first difference at slot {})", k, data.len(), tr(&d), k, tr(&want), s as isize),
+                        json!({"monomial_degree": k, "coeff_count": data.len()}));
+                }
+            }
+        }
+        rep.evals(2);
+    }
+    let cnt = (hi - lo) as u64;
+    rep.count_n("vector_class", "unit_vector:encode_vs_column_formula", cnt);
+    rep.count_n("vector_class", "monomial:decode_vs_root_powers", cnt);
+    rep.count_n("unit_vectors_by_degree", &format!("N={:05}", n), cnt);
+    rep.distinct_key(&format!("unit|N={}|b={}", n, b.tbits));
+}
+
+// ------------------------------------------------------------------ group "iso": round trips, naive evaluation, sums, products, polynomial encoding
+fn iso_case(cfg: &Cfg, grp: &str, case: u64, rep: &mut Report, rng: &mut Rng, conf: &Conf, conf_idx: usize) {
+    let Some(b) = make_bundle(cfg, grp, case, rep, conf, conf_idx, false) else { return };
+    let x = X { cfg, grp, case, info: b.info() };
+    let (n, t) = (b.n, b.t);
+    let rnd_vec = |rng: &mut Rng, len: usize| -> Vec<u64> { (0..len).map(|_| match rng.below(16) { 0 => 0, 1 => t - 1, 2 => 1, _ => rng.below(t) }).collect() };
+
+    // ---- (a) vectors: decode(encode(v)) == v zero-padded ; p(r_s) == v_s
+    let mut vectors: Vec<(&'static str, Vec<u64>)> = vec![
+        ("index", (0..n as u64).map(|i| (i + 1) % t).collect()),
+        ("random", rnd_vec(rng, n)),
+        ("all_t-1", vec![t - 1; n]),
+        ("zeros", vec![0; n]),
+        ("empty", vec![]),
+        ("short:len=1", vec![rng.range(1, t - 1)]),
+        ("short:len=N-1", rnd_vec(rng, n - 1)),
+        ("sparse", { let mut v = vec![0u64; n]; for _ in 0..3 { let i = rng.usize_below(n); v[i] = rng.range(1, t - 1); } v }),
+    ];
+    if n > 2 { let l = rng.range(1, n as u64 - 1) as usize; vectors.push(("short:random_len", rnd_vec(rng, l))); }
+    if n >= 4 { vectors.push(("short:top_row_only", rnd_vec(rng, n / 2))); }
+    let mut sample_rt = None;
+    for (name, v) in &vectors {
+        let lc = len_class(v.len(), n);
+        let vp = padded(v, n);
+        rep.count("vector_class", name);
+        rep.eval(Some(&format!("iso|{}|N={}|b={}", name, n, b.tbits)));
+        let Some(p) = encode_both(&x, rep, &b, rng, v, lc) else { continue };
+        // naive evaluation of the encoded polynomial
+        let slots = slots_to_check(n, rng);
+        rep.count_n("naive_evaluation_slots", if n <= 256 { "all_slots(N<=256)" } else { "36_sampled_slots(N>256)" }, slots.len() as u64);
+        for &s in &slots {
+            let got = refm::horner(p.data(), b.root(s), t);
+            if got != vp[s] {
+                x.viol(rep, "encode", lc, "slot_value", format!("values {} encode to p = {} with p(psi^{}) = {} but slot {} holds {}", tr(v), tr(p.data()), b.exps[s], got, s, vp[s]), json!({"values": v, "slot": s}));
+                break;
+            }
+        }
+        let Some(d) = decode_both(&x, rep, &b, rng, &p, lc) else { continue };
+        if d != vp {
+            x.viol(rep, "encode+decode", lc, "value", format!("decode(encode({})) = {} (first difference at slot {:?}) ; plaintext {}", tr(v), tr(&d), first_diff(&d, &vp), tr(p.data())), json!({"values": v}));
+        }
+        if *name == "index" && n <= 8 { sample_rt = Some(json!({"values": v, "encode_output": p.data(), "decode_output": d})); }
+    }
+    // values >= t are outside the documented domain of encode: executed, never judged
+    {
+        let mut v = rnd_vec(rng, n); v[0] = t;
+        let _ = lib(|| b.enc.encode_new(&v));
+        let _ = lib(|| b.enc.encode_new(&vec![1u64; n + 1]));
+        rep.out_of_precondition += 2;
+    }
+
+    // ---- (c) the other direction: arbitrary polynomials
+    let mut polys: Vec<(&'static str, Vec<u64>)> = vec![("poly_len=N", rnd_vec(rng, n)), ("poly_len=N", vec![t - 1; n])];
+    let pl_len = rng.range(1, n as u64 - 1) as usize;
+    polys.push(("poly_len<N", rnd_vec(rng, pl_len)));
+    polys.push(("poly_len<N", vec![]));
+    for (cls, c) in &polys {
+        rep.count("vector_class", &format!("polynomial:{}", cls));
+        rep.eval(Some(&format!("iso|{}|N={}|b={}", cls, n, b.tbits)));
+        let pl = mk_plain(c);
+        let Some(d) = decode_both(&x, rep, &b, rng, &pl, cls) else { continue };
+        for &s in &slots_to_check(n, rng) {
+            let want = refm::horner(c, b.root(s), t);
+            if d[s] != want {
+                x.viol(rep, "decode", cls, "slot_value", format!("decode({}) slot {} = {} but p(psi^{}) = {}", tr(c), s, d[s], b.exps[s], want), json!({"plain": c, "slot": s}));
+                break;
+            }
+        }
+        if let Some(p2) = encode_both(&x, rep, &b, rng, &d, "len=N") {
+            if p2.data() != &padded(c, n) {
+                x.viol(rep, "decode+encode", cls, "value", format!("encode(decode({})) = {}", tr(c), tr(p2.data())), json!({"plain": c}));
+            }
+        }
+    }
+
+    // ---- (d) ring structure: reference sum / negacyclic product of encoded polynomials
+    let pairs: Vec<(&'static str, Vec<u64>, Vec<u64>)> = {
+        let mut v = vec![("random*random", rnd_vec(rng, n), rnd_vec(rng, n))];
+        if n <= 2048 { v.push(("all_t-1*random", vec![t - 1; n], rnd_vec(rng, n))); }
+        if n <= 2048 { v.push(("index*short", (0..n as u64).map(|i| (i + 1) % t).collect(), rnd_vec(rng, (n / 2).max(1)))); }
+        v
+    };
+    let mut sample_ring = None;
+    for (name, u, v) in &pairs {
+        rep.eval(Some(&format!("iso|ring:{}|N={}|b={}", name, n, b.tbits)));
+        let (up, vp) = (padded(u, n), padded(v, n));
+        let Some(pa) = encode_both(&x, rep, &b, rng, u, len_class(u.len(), n)) else { continue };
+        let Some(pb) = encode_both(&x, rep, &b, rng, v, len_class(v.len(), n)) else { continue };
+        let sum = refm::poly_add(pa.data(), pb.data(), t);
+        let prod = negacyclic_mul_acc(pa.data(), pb.data(), t);
+        if n <= 64 { assert_eq!(prod, refm::negacyclic_mul(pa.data(), pb.data(), t), "harness: accumulating and schoolbook reference products differ"); }
+        let want_sum: Vec<u64> = (0..n).map(|i| refm::addmod(up[i], vp[i], t)).collect();
+        let want_prod: Vec<u64> = (0..n).map(|i| refm::mulmod(up[i], vp[i], t)).collect();
+        rep.count("ring_ops", &format!("sum:{}", name)); rep.count("ring_ops", &format!("product:{}", name));
+        rep.count("products_by_degree", &format!("N={:05}", n));
+        let ds = decode_both(&x, rep, &b, rng, &mk_plain(&sum), "sum_of_encodings");
+        if let Some(ds) = &ds { if *ds != want_sum {
+            x.viol(rep, "sum", name, "value", format!("decode(encode(u)+encode(v)) = {} but u+v = {} (first difference at slot {:?}); u = {}, v = {}", tr(ds), tr(&want_sum), first_diff(ds, &want_sum), tr(u), tr(v)), json!({"u": u, "v": v}));
+        } }
+        let dp = decode_both(&x, rep, &b, rng, &mk_plain(&prod), "product_of_encodings");
+        if let Some(dp) = &dp { if *dp != want_prod {
+            x.viol(rep, "product", name, "value", format!("decode(encode(u)*encode(v) mod (X^N+1, t)) = {} but u.v = {} (first difference at slot {:?}); u = {}, v = {}", tr(dp), tr(&want_prod), first_diff(dp, &want_prod), tr(u), tr(v)), json!({"u": u, "v": v}));
+        } }
+        if n <= 8 && *name == "random*random" { sample_ring = Some(json!({"u": u, "v": v, "encode(u)": pa.data(), "encode(v)": pb.data(), "reference_sum_poly": sum, "reference_product_poly": prod, "decode(sum)": ds, "decode(product)": dp, "u+v": want_sum, "u.v": want_prod})); }
+    }
+
+    // ---- (e) coefficient (polynomial) encoding
+    let big = |rng: &mut Rng| -> u64 { match rng.below(8) { 0 => t, 1 => t + 1, 2 => u64::MAX, 3 => 2 * t - 1, 4 => (u64::MAX / t) * t, 5 => t - 1, _ => rng.u64() } };
+    let (l1, l2) = (rng.range(1, n as u64) as usize, rng.range(1, n as u64) as usize);
+    let mut pv: Vec<(&'static str, Vec<u64>)> = vec![
+        ("coeff<t", rnd_vec(rng, n)),
+        ("coeff<t", rnd_vec(rng, l1)),
+        ("coeff<t", vec![]),
+        ("coeff>=t", (0..n).map(|_| big(rng)).collect()),
+        ("coeff>=t", (0..l2).map(|_| big(rng)).collect()),
+        ("coeff>=t", vec![t]),
+    ];
+    pv.push(("coeff>=t", vec![u64::MAX; 3.min(n)]));
+    let mut sample_poly = None;
+    for (cls, v) in &pv {
+        rep.count("vector_class", &format!("encode_polynomial:{}", cls));
+        rep.eval(Some(&format!("iso|encpoly:{}|N={}|b={}", cls, n, b.tbits)));
+        let want: Vec<u64> = v.iter().map(|&c| c % t).collect();
+        let inp = tr(v);
+        let p_new = call!(x, rep, "encode_polynomial_new", cls, inp, b.enc.encode_polynomial_new(v));
+        let dirty = dirty_plain(&b, rng);
+        let p_dst = call!(x, rep, "encode_polynomial", cls, inp, { let mut d = dirty.clone(); b.enc.encode_polynomial(v, &mut d); d });
+        rep.count("forms", "encode_polynomial"); rep.count("forms", "encode_polynomial_new");
+        for (op, p) in [("encode_polynomial_new", &p_new), ("encode_polynomial", &p_dst)] {
+            let Some(p) = p else { continue };
+            let d = p.data();
+            let ok = d.len() >= want.len() && d[..want.len()] == want[..] && d[want.len()..].iter().all(|&c| c == 0) && p.coeff_count() == d.len();
+            if !ok {
+                x.viol(rep, op, cls, "value", format!("{}({}) = {} (coeff_count {}) but the coefficients mod t are {}", op, inp, tr(d), p.coeff_count(), tr(&want)), json!({"values": v}));
+                continue;
+            }
+            // coefficient decoding inverts it (both forms)
+            let o_new = call!(x, rep, "decode_polynomial_new", cls, tr(d), b.enc.decode_polynomial_new(p));
+            let dv = dirty_vec(&b, rng);
+            let o_dst = call!(x, rep, "decode_polynomial", cls, tr(d), { let mut o = dv.clone(); b.enc.decode_polynomial(p, &mut o); o });
+            rep.count("forms", "decode_polynomial"); rep.count("forms", "decode_polynomial_new");
+            for (dop, o) in [("decode_polynomial_new", &o_new), ("decode_polynomial", &o_dst)] {
+                let Some(o) = o else { continue };
+                let ok = o.len() >= want.len() && o[..want.len()] == want[..] && o[want.len()..].iter().all(|&c| c == 0);
+                if !ok { x.viol(rep, dop, cls, "value", format!("{}({}({})) = {} but the coefficients mod t are {}", dop, op, inp, tr(o), tr(&want)), json!({"values": v})); }
+            }
+            // and the encoded polynomial is the plaintext polynomial: its slots are its evaluations
+            if op == "encode_polynomial_new" && !v.is_empty() {
+                if let Some(sl) = call!(x, rep, "decode_new", "encode_polynomial_output", tr(d), b.enc.decode_new(p)) {
+                    for &s in &slots_to_check(n, rng) {
+                        let w = refm::horner(&want, b.root(s), t);
+                        if sl.len() != n || sl[s] != w { x.viol(rep, "decode", "encode_polynomial_output", "slot_value", format!("decode(encode_polynomial({})) slot {} = {:?} but p(psi^{}) = {}", inp, s, sl.get(s), b.exps[s], w), json!({"values": v, "slot": s})); break; }
+                    }
+                }
+            }
+            if n <= 8 && *cls == "coeff>=t" && v.len() > 1 && op == "encode_polynomial_new" { sample_poly = Some(json!({"values": v, "encode_polynomial_output": d, "decode_polynomial_output": o_new})); }
+        }
+    }
+    { let _ = lib(|| b.enc.encode_polynomial_new(&vec![1u64; n + 1])); rep.out_of_precondition += 1; } // longer than N: a refusal is expected, not judged
+
+    if conf.first_of_n && (n == 2 || n == 8) {
+        rep.sample(json!({"group": "iso", "params": b.info(), "slot_exponents_e_j": b.exps, "roots_r_j": (0..n).map(|s| b.root(s)).collect::<Vec<_>>(),
+            "round_trip": sample_rt, "ring": sample_ring, "polynomial_encoding": sample_poly}));
+    }
+}
+
+// ------------------------------------------------------------------ group "rot": every rotation step, column swap
+fn step_of(k: usize, h: usize) -> isize { if k < h - 1 { (k + 1) as isize } else { -((k - (h - 1) + 1) as isize) } }
+
+/// apply the Galois element through the three forms and compare the decoded matrix
+fn check_galois(x: &X, rep: &mut Report, b: &Bundle, rng: &mut Rng, p: &Plaintext, v: &[u64], elt: usize, want: &[u64], class: &str, what: &str, forms: &[&'static str], outs: &mut Vec<Value>) {
+    for &form in forms {
+        let inp = format!("{} galois_elt={} values={}", what, elt, tr(v));
+        let out = match form {
+            "apply_galois_plain" => { let dirty = dirty_plain(b, rng); call!(x, rep, form, class, inp, { let mut d = dirty.clone(); b.ev.apply_galois_plain(p, elt, &mut d); d }) }
+            "apply_galois_plain_new" => call!(x, rep, form, class, inp, b.ev.apply_galois_plain_new(p, elt)),
+            _ => call!(x, rep, form, class, inp, { let mut d = p.clone(); b.ev.apply_galois_plain_inplace(&mut d, elt); d }),
+        };
+        rep.count("forms", form);
+        rep.evals(1);
+        let Some(out) = out else { continue };
+        let dec = if form == "apply_galois_plain_new" { call!(x, rep, "decode", "galois_output", tr(out.data()), { let mut d = vec![]; b.enc.decode(&out, &mut d); d }) }
+            else { call!(x, rep, "decode_new", "galois_output", tr(out.data()), b.enc.decode_new(&out)) };
+        let Some(dec) = dec else { continue };
+        if outs.len() < 64 && form == "apply_galois_plain" { outs.push(json!({"step_or_element": what, "galois_elt": elt, "decoded": dec})); }
+        if dec != want {
+            // diagnosis only: is the polynomial the mathematical automorphism X -> X^elt of the input?
+            let padded_in = padded(p.data(), b.n);
+            let sigma = refm::automorphism(&padded_in, elt, b.t);
+            let poly_is_sigma = padded(out.data(), b.n) == sigma;
+            x.viol(rep, form, class, "value",
+                format!("{} with galois_elt {} on matrix {} decodes to {} but the documented result is {} (first difference at slot {:?}; output polynomial {} the automorphism X->X^{} of the input)",
+                    what, elt, tr(v), tr(&dec), tr(want), first_diff(&dec, want), if poly_is_sigma { "IS" } else { "is NOT" }, elt),
+                json!({"values": v, "galois_elt": elt, "what": what}));
+        }
+    }
+}
+
+fn rot_case(cfg: &Cfg, grp: &str, case: u64, rep: &mut Report, rng: &mut Rng, conf: &Conf, conf_idx: usize, chunk: usize) {
+    let Some(b) = make_bundle(cfg, grp, case, rep, conf, conf_idx, false) else { return };
+    let x = X { cfg, grp, case, info: b.info() };
+    let (n, h, t) = (b.n, b.h, b.t);
+    let kcd = b.ctx.key_context_data().unwrap();
+    let own_tool = if b.standalone_tool { Some(GaloisTool::new(n.trailing_zeros() as usize)) } else { None };
+    let tool: &GaloisTool = match &own_tool { Some(t) => t, None => kcd.verif_galois_tool() };
+    rep.count("galois_tool", if b.standalone_tool { "GaloisTool::new(log2 N)" } else { "context_data.galois_tool()" });
+    const ALL: [&str; 3] = ["apply_galois_plain", "apply_galois_plain_new", "apply_galois_plain_inplace"];
+    // index-valued matrix: every slot distinct and non-zero (N < t always)
+    let v: Vec<u64> = (1..=n as u64).collect();
+    let Some(p) = call!(x, rep, "encode_new", "len=N", tr(&v), b.enc.encode_new(&v)) else { return };
+    let mut outs: Vec<Value> = vec![];
+    let nsteps = if h >= 1 { 2 * (h - 1) } else { 0 }; // = N - 2
+    let lo = chunk * CHUNK; let hi = (lo + CHUNK).min(nsteps);
+    for k in lo..hi {
+        let s = step_of(k, h);
+        let class = if s > 0 { "step>0" } else { "step<0" };
+        let Some(elt) = call!(x, rep, "get_elt_from_step", class, format!("step={}", s), tool.get_elt_from_step(s)) else { continue };
+        let want = rot_expected(&v, s);
+        check_galois(&x, rep, &b, rng, &p, &v, elt, &want, class, &format!("step {}", s), &ALL, &mut outs);
+    }
+    if hi > lo {
+        rep.count_n("rotation_steps_checked_by_degree(all_0<|s|<N/2,x3_forms)", &format!("N={:05}", n), (hi - lo) as u64);
+        rep.count_n("rotation_steps_by_sign", "step>0", (lo..hi).filter(|&k| step_of(k, h) > 0).count() as u64);
+        rep.count_n("rotation_steps_by_sign", "step<0", (lo..hi).filter(|&k| step_of(k, h) < 0).count() as u64);
+        rep.max("largest_|step|", (lo..hi).map(|k| step_of(k, h).unsigned_abs()).max().unwrap_or(0) as f64);
+    }
+    rep.distinct_key(&format!("rot|N={}|b={}|chunk={}", n, b.tbits, chunk));
+    if chunk != 0 { return; }
+    rep.count("rotation_configs_by_degree", &format!("N={:05}", n));
+
+    // ---- column swap: the element of step 0 (what rotate_columns uses) and the literal 2N-1
+    let want = swap_expected(&v);
+    if let Some(e0) = call!(x, rep, "get_elt_from_step", "step=0", "step=0", tool.get_elt_from_step(0)) {
+        check_galois(&x, rep, &b, rng, &p, &v, e0, &want, "column_swap", "column swap (element of step 0)", &ALL, &mut outs);
+        rep.count("column_swap", "get_elt_from_step(0)");
+        if e0 != 2 * n - 1 {
+            check_galois(&x, rep, &b, rng, &p, &v, 2 * n - 1, &want, "column_swap", "column swap (element 2N-1)", &ALL, &mut outs);
+            rep.note("get_elt_from_step(0) != 2N-1 observed");
+        }
+        rep.count("column_swap", "element_2N-1");
+    }
+    // ---- random matrices under random steps and the swap
+    for _ in 0..4 {
+        let rv: Vec<u64> = (0..n).map(|_| match rng.below(8) { 0 => 0, 1 => t - 1, _ => rng.below(t) }).collect();
+        let Some(rp) = call!(x, rep, "encode_new", "len=N", tr(&rv), b.enc.encode_new(&rv)) else { continue };
+        let mut sink = vec![];
+        if nsteps > 0 {
+            let s = step_of(rng.usize_below(nsteps), h);
+            let class = if s > 0 { "step>0" } else { "step<0" };
+            if let Some(elt) = call!(x, rep, "get_elt_from_step", class, format!("step={}", s), tool.get_elt_from_step(s)) {
+                check_galois(&x, rep, &b, rng, &rp, &rv, elt, &rot_expected(&rv, s), class, &format!("step {}", s), &ALL, &mut sink);
+            }
+        }
+        check_galois(&x, rep, &b, rng, &rp, &rv, 2 * n - 1, &swap_expected(&rv), "column_swap", "column swap (element 2N-1)", &ALL[..1], &mut sink);
+        rep.count("vector_class", "rotation:random_matrix");
+    }
+    // ---- a valid plaintext with fewer than N coefficients (what encode_polynomial returns) has a decoded
+    //      matrix too; the automorphism must act on it in the same way
+    if n >= 4 {
+        let c: Vec<u64> = (1..=3u64.min(n as u64 - 1)).collect();
+        if let Some(ps) = call!(x, rep, "encode_polynomial_new", "coeff<t", tr(&c), b.enc.encode_polynomial_new(&c)) {
+            if ps.coeff_count() < n {
+                // the matrix of the short polynomial, by naive evaluation
+                let m: Vec<u64> = (0..n).map(|s| refm::horner(&c, b.root(s), t)).collect();
+                let mut sink = vec![];
+                rep.count("vector_class", "rotation:plaintext_with_coeff_count<N");
+                if let Some(e1) = call!(x, rep, "get_elt_from_step", "step>0", "step=1", tool.get_elt_from_step(1)) {
+                    check_galois(&x, rep, &b, rng, &ps, &m, e1, &rot_expected(&m, 1), "coeff_count<N", "step 1 on a plaintext with coeff_count < N", &ALL, &mut sink);
+                }
+                check_galois(&x, rep, &b, rng, &ps, &m, 2 * n - 1, &swap_expected(&m), "coeff_count<N", "column swap (element 2N-1) on a plaintext with coeff_count < N", &ALL[..1], &mut sink);
+            }
+        }
+    }
+    // ---- steps outside 0<|s|<N/2 are outside the documented domain: executed, not judged
+    for s in [h as isize, -(h as isize)] { let _ = lib(|| tool.get_elt_from_step(s)); rep.out_of_precondition += 1; }
+
+    if conf.first_of_n && (n == 4 || n == 8) {
+        rep.sample(json!({"group": "rot", "params": b.info(), "matrix_rows": [v[..h].to_vec(), v[h..].to_vec()], "encode_output": p.data(), "apply_galois_plain_outputs_decoded": outs}));
+    }
+}
+
+// ------------------------------------------------------------------ driver
+pub fn run(cfg: &Cfg, rep: &mut Report) -> PropMeta {
+    let confs = build_confs(cfg);
+    // iso: one case per configuration
+    run_cases(cfg, "iso", confs.len() as u64, rep, |i, rng, rep| { iso_case(cfg, "iso", i, rep, rng, &confs[i as usize], i as usize); });
+    // unit / rot: (configuration, chunk) work items
+    let mut unit_items: Vec<(usize, usize)> = vec![]; let mut rot_items: Vec<(usize, usize)> = vec![];
+    for (ci, c) in confs.iter().enumerate() {
+        for ch in 0..(c.n + CHUNK - 1) / CHUNK { unit_items.push((ci, ch)); }
+        let nsteps = c.n.saturating_sub(2);
+        for ch in 0..((nsteps + CHUNK - 1) / CHUNK).max(1) { rot_items.push((ci, ch)); }
+    }
+    run_cases(cfg, "unit", unit_items.len() as u64, rep, |i, rng, rep| { let (ci, ch) = unit_items[i as usize]; unit_case(cfg, "unit", i, rep, rng, &confs[ci], ci, ch); });
+    run_cases(cfg, "rot", rot_items.len() as u64, rep, |i, rng, rep| { let (ci, ch) = rot_items[i as usize]; rot_case(cfg, "rot", i, rep, rng, &confs[ci], ci, ch); });
+    rep.note(&format!("{} configurations (N, t bit size, prime choice); every configuration: all N unit vectors, all N monomials, all N-2 rotation steps in three forms, column swap", confs.len()));
+    PropMeta {
+        id: "C11", level: "exploration",
+        rule: "configurations: N = 2..1024 (quick) / 2..8192 (thorough) x every t bit size 4..60 for which a prime t = 1 mod 2N exists x {smallest, largest (PlainModulus::batching), 2 (quick) / 4 (thorough) seed-dependent random} primes, BFV/BGV, four kinds of coefficient modulus, SecurityLevel::None. Per configuration, exhaustively: the N unit vectors (encode vs. column N^-1 psi^(-e_j k)), the N monomials (decode vs. psi^(e_s k)), every rotation step 0<|s|<N/2 on the index-valued matrix through apply_galois_plain / _new / _inplace, the column swap; sampled: random / extreme / short vectors (round trip, Horner evaluation at all slots for N <= 256, 36 slots above), random polynomials (decode vs. Horner, encode(decode)), reference sums and schoolbook negacyclic products, encode_polynomial / decode_polynomial with coefficients below and above t. evaluations = vectors, polynomials, ring pairs and (step, form) pairs judged; distinct = (check, N, t bit size) classes",
+        assumptions: vec![
+            "u128 arithmetic of rustc; refm::is_prime (deterministic Miller-Rabin)".into(),
+            "psi is taken from context_data.plain_ntt_tables().root() and only checked to be a primitive 2N-th root of unity mod t".into(),
+            "slot values < t (documented domain of encode); values >= t and lengths > N are executed but not judged".into(),
+            "rotation checks read the result through the library's decode, which the unit/iso groups check against naive evaluation in the same run".into(),
+            "a plaintext with coeff_count < N (as produced by encode_polynomial and accepted by is_valid_for / decode) is treated as a polynomial with zero high coefficients, also by apply_galois_plain".into(),
+        ],
+        exhaustive: false, floor: cfg.pick(100_000, 1_000_000),
+    }
 }
